@@ -1,3 +1,845 @@
-//! whole-program generator (filled in with C08)
+//! Whole programs: AST, renderer with recorded positions, flattening to the expected
+//! instruction list, reference data image, and the reference interpreter that models
+//! pre-processor + driver loop + interpreter + console services at the level of observable
+//! events.
+#![allow(dead_code)]
+use crate::asm::*;
 use crate::common::*;
+use crate::emu::*;
+use crate::machine::*;
+use crate::refmodel::*;
+use std::collections::HashMap;
+
+#[derive(Clone, Debug, PartialEq, Eq)]
+pub enum DataKind {
+    /// single value (bit pattern)
+    Val(u16),
+    /// n zero elements
+    Zeros(u16),
+    /// n elements of value v
+    Fill(u16, u16),
+    /// string
+    Str(String),
+}
+
+#[derive(Clone, Debug, PartialEq, Eq)]
+pub enum DataDecl {
+    Set(u16),
+    Item { label: Option<String>, word: bool, kind: DataKind },
+}
+
+impl DataDecl {
+    pub fn size(&self) -> u32 {
+        match self {
+            DataDecl::Set(_) => 0,
+            DataDecl::Item { word, kind, .. } => {
+                let el = if *word { 2 } else { 1 };
+                match kind {
+                    DataKind::Val(_) => el,
+                    DataKind::Zeros(n) | DataKind::Fill(_, n) => *n as u32 * el,
+                    DataKind::Str(s) => s.len() as u32 * el,
+                }
+            }
+        }
+    }
+}
+
+#[derive(Clone, Debug, PartialEq, Eq)]
+pub enum PrintStmt {
+    Flags,
+    Reg,
+    MemRange(u32, u32),
+    MemLen(u32, u32),
+    MemDs(u32),
+}
+
+#[derive(Clone, Debug)]
+pub enum Item {
+    Label(String),
+    Ins(Insn),
+    Print(PrintStmt),
+    Proc { name: String, body: Vec<Item> },
+    /// a macro definition; `body_src` is the text between -> and <-
+    MacroDef { name: String, params: Vec<String>, body_src: String },
+    /// a macro use; `expands_to` is the reference expansion (instructions)
+    MacroUse { name: String, args: Vec<String>, expands_to: Vec<Insn> },
+}
+
+#[derive(Clone, Debug, Default)]
+pub struct Program {
+    pub data: Vec<DataDecl>,
+    pub code: Vec<Item>,
+}
+
+/// layout choices for rendering a program
+#[derive(Clone, Debug)]
+pub struct Layout {
+    pub choices: Vec<u8>,
+    /// allow ';' comments (only meaningful through the CLI, which strips them)
+    pub comments: bool,
+    pub trailing_newline: bool,
+    /// several statements on one line now and then
+    pub pack_lines: bool,
+}
+
+impl Layout {
+    pub fn plain() -> Layout {
+        Layout { choices: vec![0], comments: false, trailing_newline: true, pack_lines: false }
+    }
+}
+
+/// where a statement starts in the rendered text
+#[derive(Clone, Debug)]
+pub struct StmtPos {
+    /// index into the flattened instruction list (None for labels/definitions)
+    pub flat: Option<usize>,
+    pub offset: usize,
+}
+
+pub struct Rendered {
+    pub text: String,
+    /// byte offset of the first token of every flat instruction (macro-made instructions: the use site;
+    /// implied ret: the closing brace)
+    pub flat_offsets: Vec<usize>,
+}
+
+impl Rendered {
+    /// 1-based line number of a byte offset
+    pub fn line_of(&self, off: usize) -> usize {
+        self.text.as_bytes()[..off.min(self.text.len())].iter().filter(|b| **b == b'\n').count() + 1
+    }
+    /// text of the (1-based) line, without the newline
+    pub fn line_text(&self, line: usize) -> String {
+        self.text.split('\n').nth(line - 1).unwrap_or("").to_string()
+    }
+}
+
+pub fn render_print(p: &PrintStmt, ch: &mut Choices) -> String {
+    let k = |s: &str, ch: &mut Choices| {
+        if ch.next() & 1 == 1 {
+            s.to_uppercase()
+        } else {
+            s.to_string()
+        }
+    };
+    let num = |v: u32, ch: &mut Choices| match ch.next() % 4 {
+        0 | 1 => format!("{}", v),
+        2 => format!("0x{:X}", v),
+        _ => format!("0b{:b}", v),
+    };
+    match p {
+        PrintStmt::Flags => format!("{} {}", k("print", ch), k("flags", ch)),
+        PrintStmt::Reg => format!("{} {}", k("print", ch), k("reg", ch)),
+        PrintStmt::MemRange(a, b) => format!("{} {} {} -> {}", k("print", ch), k("mem", ch), num(*a, ch), num(*b, ch)),
+        PrintStmt::MemLen(a, n) => {
+            let sp = if ch.next() & 1 == 1 { " : " } else { ":" };
+            format!("{} {} {}{}{}", k("print", ch), k("mem", ch), num(*a, ch), sp, num(*n, ch))
+        }
+        PrintStmt::MemDs(n) => format!("{} {} :{}", k("print", ch), k("mem", ch), num(*n, ch)),
+    }
+}
+
+pub fn render_data(d: &DataDecl, ch: &mut Choices) -> String {
+    let k = |s: &str, ch: &mut Choices| {
+        if ch.next() & 1 == 1 {
+            s.to_uppercase()
+        } else {
+            s.to_string()
+        }
+    };
+    match d {
+        DataDecl::Set(n) => format!("{} {}", k("set", ch), render_imm(*n, ImmKind::UW, ch, &[])),
+        DataDecl::Item { label, word, kind } => {
+            let mut s = String::new();
+            if let Some(l) = label {
+                s.push_str(l);
+                s.push_str(": ");
+            }
+            s.push_str(&k(if *word { "dw" } else { "db" }, ch));
+            s.push(' ');
+            let ik = if *word { ImmKind::SW } else { ImmKind::SB };
+            match kind {
+                DataKind::Val(v) => s.push_str(&render_imm(*v, ik, ch, &[])),
+                DataKind::Zeros(n) => s.push_str(&format!("[{}]", render_imm(*n, ImmKind::UW, ch, &[]))),
+                DataKind::Fill(v, n) => s.push_str(&format!("[{} , {}]", render_imm(*v, ik, ch, &[]), render_imm(*n, ImmKind::UW, ch, &[]))),
+                DataKind::Str(st) => s.push_str(&format!("\"{}\"", st)),
+            }
+            s
+        }
+    }
+}
+
+const COMMENTS: [&str; 6] = ["; comment", ";mov ax, 5", "; start: hlt ; nested", ";", "; \"quoted\" text", ";;; jmp nowhere"];
+
+fn stmt_sep(out: &mut String, lay: &Layout, ch: &mut Choices, is_string_literal_line: bool) {
+    let c = ch.next();
+    if lay.comments && c % 5 == 0 {
+        out.push(' ');
+        out.push_str(COMMENTS[(c / 5) as usize % COMMENTS.len()]);
+        out.push('\n');
+        return;
+    }
+    if lay.pack_lines && c % 7 == 1 && !is_string_literal_line {
+        out.push(' ');
+        return;
+    }
+    out.push('\n');
+    match c % 11 {
+        3 => out.push('\n'),
+        4 => out.push_str("   \n"),
+        5 if lay.comments => {
+            out.push_str(COMMENTS[(c as usize) % COMMENTS.len()]);
+            out.push('\n');
+        }
+        6 => out.push('\t'),
+        _ => {}
+    }
+}
+
+/// render a program; records the byte offset of every flattened instruction
+pub fn render_program(p: &Program, lay: &Layout) -> Rendered {
+    let mut ch = Choices::new(lay.choices.clone());
+    let mut out = String::new();
+    let mut flat_offsets: Vec<usize> = Vec::new();
+    if lay.comments && ch.next() % 3 == 0 {
+        out.push_str("; generated program\n");
+    }
+    for d in &p.data {
+        out.push_str(&render_data(d, &mut ch));
+        // a string literal is greedy to the last quote of its line: keep it alone on the line
+        out.push('\n');
+        if ch.next() % 9 == 0 {
+            out.push('\n');
+        }
+    }
+    let data_labels: Vec<(String, u16)> = data_label_offsets(&p.data);
+    fn items(list: &[Item], out: &mut String, offs: &mut Vec<usize>, lay: &Layout, ch: &mut Choices, dl: &[(String, u16)]) {
+        for it in list {
+            match it {
+                Item::Label(n) => {
+                    out.push_str(n);
+                    out.push(':');
+                    // a label may share its line with the next statement
+                    if ch.next() % 3 == 0 {
+                        out.push('\n');
+                    } else {
+                        out.push(' ');
+                    }
+                }
+                Item::Ins(i) => {
+                    offs.push(out.len());
+                    out.push_str(&render_insn(i, ch, dl));
+                    stmt_sep(out, lay, ch, false);
+                }
+                Item::Print(pr) => {
+                    offs.push(out.len());
+                    out.push_str(&render_print(pr, ch));
+                    stmt_sep(out, lay, ch, false);
+                }
+                Item::Proc { name, body } => {
+                    let kw = if ch.next() & 1 == 1 { "DEF" } else { "def" };
+                    out.push_str(&format!("{} {} {{", kw, name));
+                    out.push_str(if ch.next() % 2 == 0 { "\n" } else { " " });
+                    items(body, out, offs, lay, ch, dl);
+                    // implied ret is attributed to the closing brace
+                    offs.push(out.len());
+                    out.push('}');
+                    stmt_sep(out, lay, ch, false);
+                }
+                Item::MacroDef { name, params, body_src } => {
+                    let kw = if ch.next() & 1 == 1 { "MACRO" } else { "macro" };
+                    out.push_str(&format!("{} {}({}) ->{}<-", kw, name, params.join(","), body_src));
+                    out.push('\n');
+                }
+                Item::MacroUse { name, args, expands_to } => {
+                    for _ in expands_to {
+                        offs.push(out.len());
+                    }
+                    out.push_str(&format!("{}({})", name, args.join(",")));
+                    stmt_sep(out, lay, ch, false);
+                }
+            }
+        }
+    }
+    items(&p.code, &mut out, &mut flat_offsets, lay, &mut ch, &data_labels);
+    if !lay.trailing_newline {
+        while out.ends_with('\n') || out.ends_with(' ') || out.ends_with('\t') {
+            out.pop();
+        }
+    } else if !out.ends_with('\n') {
+        out.push('\n');
+    }
+    Rendered { text: out, flat_offsets }
+}
+
+/// offsets of the data labels inside their segments (reference computation)
+pub fn data_label_offsets(data: &[DataDecl]) -> Vec<(String, u16)> {
+    let mut v = Vec::new();
+    let mut ctr: u32 = 0;
+    for d in data {
+        match d {
+            DataDecl::Set(_) => ctr = 0,
+            DataDecl::Item { label, .. } => {
+                if let Some(l) = label {
+                    v.push((l.clone(), ctr as u16));
+                }
+                ctr += d.size();
+            }
+        }
+    }
+    v
+}
+
+/// independently computed memory image after loading the data section
+pub fn data_image(data: &[DataDecl]) -> Vec<u8> {
+    let mut mem = vec![0u8; MB];
+    let mut seg: u32 = 0;
+    let mut ctr: u32 = 0;
+    let put = |mem: &mut Vec<u8>, seg: u32, ctr: u32, b: u8| {
+        let a = (seg * 16 + ctr) as usize % MB;
+        mem[a] = b;
+    };
+    for d in data {
+        match d {
+            DataDecl::Set(n) => {
+                seg = *n as u32;
+                ctr = 0;
+            }
+            DataDecl::Item { word, kind, .. } => match kind {
+                DataKind::Val(v) => {
+                    put(&mut mem, seg, ctr, *v as u8);
+                    ctr += 1;
+                    if *word {
+                        put(&mut mem, seg, ctr, (*v >> 8) as u8);
+                        ctr += 1;
+                    }
+                }
+                DataKind::Zeros(n) => {
+                    for _ in 0..(*n as u32 * if *word { 2 } else { 1 }) {
+                        put(&mut mem, seg, ctr, 0);
+                        ctr += 1;
+                    }
+                }
+                DataKind::Fill(v, n) => {
+                    for _ in 0..*n {
+                        put(&mut mem, seg, ctr, *v as u8);
+                        ctr += 1;
+                        if *word {
+                            put(&mut mem, seg, ctr, (*v >> 8) as u8);
+                            ctr += 1;
+                        }
+                    }
+                }
+                DataKind::Str(s) => {
+                    for b in s.bytes() {
+                        put(&mut mem, seg, ctr, b);
+                        ctr += 1;
+                        if *word {
+                            put(&mut mem, seg, ctr, 0);
+                            ctr += 1;
+                        }
+                    }
+                }
+            },
+        }
+    }
+    mem
+}
+
+#[derive(Clone, Debug)]
+pub enum FlatOp {
+    Ins(Insn),
+    Print(PrintStmt),
+    ImpliedRet,
+    /// the hlt the driver appends
+    FinalHlt,
+}
+
+#[derive(Clone, Debug, Default)]
+pub struct Flat {
+    pub ops: Vec<FlatOp>,
+    pub labels: HashMap<String, usize>,
+    pub procs: HashMap<String, usize>,
+    pub data_labels: Vec<(String, u16)>,
+}
+
+pub fn flatten(p: &Program) -> Flat {
+    let mut f = Flat::default();
+    f.data_labels = data_label_offsets(&p.data);
+    fn walk(items: &[Item], f: &mut Flat) {
+        for it in items {
+            match it {
+                Item::Label(n) => {
+                    f.labels.insert(n.clone(), f.ops.len());
+                }
+                Item::Ins(i) => f.ops.push(FlatOp::Ins(i.clone())),
+                Item::Print(p) => f.ops.push(FlatOp::Print(p.clone())),
+                Item::Proc { name, body } => {
+                    f.procs.insert(name.clone(), f.ops.len());
+                    walk(body, f);
+                    f.ops.push(FlatOp::ImpliedRet);
+                }
+                Item::MacroDef { .. } => {}
+                Item::MacroUse { expands_to, .. } => {
+                    for i in expands_to {
+                        f.ops.push(FlatOp::Ins(i.clone()));
+                    }
+                }
+            }
+        }
+    }
+    walk(&p.code, &mut f);
+    f.ops.push(FlatOp::FinalHlt);
+    f
+}
+
+/// observable events of a run
+#[derive(Clone, Debug, PartialEq, Eq)]
+pub enum Ev {
+    /// raw characters written by the console services
+    Chars(Vec<u8>),
+    /// "Output of line N : text :"
+    PrintHdr(usize),
+    Flags(u16),
+    Regs([u16; 12]),
+    Mem(Vec<u8>),
+    /// a print statement answered with a message instead of a dump
+    PrintRefused,
+    /// "About to execute line N : text"
+    About(usize),
+    TrapNote,
+    Prompt,
+    Int3(usize),
+    Invalid,
+    Exiting,
+    DivErr(usize),
+    UnsupInt(usize),
+    /// "Internal Error ..." / ret without call
+    InternalError,
+}
+
+#[derive(Clone, Debug, PartialEq, Eq)]
+pub enum Stop {
+    Halt,
+    Quit,
+    DivideError,
+    UnsupportedInt,
+    /// `ret` with no active call: the run stops with a diagnostic
+    RetWithoutCall,
+    StepLimit,
+    /// stdin exhausted at a prompt (emulator must terminate)
+    EofAtPrompt,
+}
+
+pub struct RefRun {
+    pub events: Vec<Ev>,
+    /// executed flat indices in order
+    pub trace: Vec<usize>,
+    pub stop: Stop,
+    pub regs: Regs,
+    pub mem: Vec<u8>,
+    /// flat indexes of instructions before which a prompt was shown
+    pub prompts_before: Vec<usize>,
+    pub stdin_used: usize,
+}
+
+/// dense-memory machine for whole programs
+pub struct DMachine {
+    pub m: Machine,
+}
+
+pub fn ref_print(p: &PrintStmt, regs: &Regs, mem: &[u8]) -> Ev {
+    match p {
+        PrintStmt::Flags => Ev::Flags(regs.r[FLAGS] & (OF | DF | IF | TF | SF | ZF | AF | PF | CF)),
+        PrintStmt::Reg => {
+            let mut a = [0u16; 12];
+            for i in 0..12 {
+                a[i] = regs.r[i];
+            }
+            Ev::Regs(a)
+        }
+        PrintStmt::MemRange(a, b) => {
+            if *a as usize >= MB || *b as usize >= MB || a > b {
+                Ev::PrintRefused
+            } else {
+                Ev::Mem(mem[*a as usize..=*b as usize].to_vec())
+            }
+        }
+        PrintStmt::MemLen(a, n) => {
+            let e = *a as u64 + *n as u64;
+            if *a as usize >= MB || e >= MB as u64 {
+                Ev::PrintRefused
+            } else {
+                Ev::Mem(mem[*a as usize..=e as usize].to_vec())
+            }
+        }
+        PrintStmt::MemDs(n) => {
+            let s = regs.r[DS] as u64 * 16;
+            let e = s + *n as u64;
+            if e >= MB as u64 {
+                Ev::PrintRefused
+            } else {
+                Ev::Mem(mem[s as usize..=e as usize].to_vec())
+            }
+        }
+    }
+}
+
+/// a scripted prompt answer
+#[derive(Clone, Debug, PartialEq, Eq)]
+pub enum PromptCmd {
+    Next(String),
+    Quit(String),
+    Print(PrintStmt, String),
+    Garbage(String),
+}
+impl PromptCmd {
+    pub fn text(&self) -> &str {
+        match self {
+            PromptCmd::Next(s) | PromptCmd::Quit(s) | PromptCmd::Garbage(s) => s,
+            PromptCmd::Print(_, s) => s,
+        }
+    }
+}
+
+pub struct RunCfg<'a> {
+    pub interpreted: bool,
+    /// prompt script (one entry per line of stdin consumed at prompts)
+    pub script: &'a [PromptCmd],
+    /// line number (1-based) of every flat op, for About/Int3/PrintHdr events
+    pub lines: &'a [usize],
+    pub max_steps: usize,
+    /// raw stdin lines for INT 21h services (None = those services are not used)
+    pub input_lines: Option<&'a [Vec<u8>]>,
+}
+
+/// The reference interpreter for whole programs.
+pub fn ref_run(flat: &Flat, image: &[u8], cfg: &RunCfg, q: &Quirks) -> RefRun {
+    let mut regs = Regs::default();
+    regs.r[FLAGS] = 0xF000;
+    regs.r[CS] = 0xFFFF;
+    let mut mach = Machine::new(regs);
+    mach.mem.dense = Some(image.to_vec());
+    let mut events: Vec<Ev> = Vec::new();
+    let mut trace = Vec::new();
+    let mut prompts_before = Vec::new();
+    let mut script_pos = 0usize;
+    let mut input_pos = 0usize;
+    let start = match flat.labels.get("start") {
+        Some(s) => *s,
+        None => {
+            return RefRun { events, trace, stop: Stop::Halt, regs: mach.regs, mem: mach.mem.dense.take().unwrap(), prompts_before, stdin_used: 0 };
+        }
+    };
+    let mut idx = start;
+    let mut steps = 0usize;
+    let line_of = |i: usize| cfg.lines.get(i).copied().unwrap_or(0);
+    // prompt handling: returns false if the run must stop
+    let mut prompt = |events: &mut Vec<Ev>, mach: &Machine, script_pos: &mut usize| -> Option<Stop> {
+        loop {
+            events.push(Ev::Prompt);
+            if *script_pos >= cfg.script.len() {
+                return Some(Stop::EofAtPrompt);
+            }
+            let c = &cfg.script[*script_pos];
+            *script_pos += 1;
+            match c {
+                PromptCmd::Next(_) => return None,
+                PromptCmd::Quit(_) => {
+                    events.push(Ev::Exiting);
+                    return Some(Stop::Quit);
+                }
+                PromptCmd::Print(p, _) => {
+                    events.push(ref_print(p, &mach.regs, mach.mem.dense.as_ref().unwrap()));
+                }
+                PromptCmd::Garbage(_) => events.push(Ev::Invalid),
+            }
+        }
+    };
+    let stop;
+    loop {
+        if steps >= cfg.max_steps {
+            stop = Stop::StepLimit;
+            break;
+        }
+        steps += 1;
+        let tf = mach.regs.r[FLAGS] & TF != 0;
+        let is_final = matches!(flat.ops[idx], FlatOp::FinalHlt);
+        if (cfg.interpreted || tf) && !is_final {
+            events.push(Ev::About(line_of(idx)));
+            if tf {
+                events.push(Ev::TrapNote);
+            }
+            prompts_before.push(idx);
+            if let Some(s) = prompt(&mut events, &mach, &mut script_pos) {
+                stop = s;
+                break;
+            }
+        }
+        trace.push(idx);
+        match &flat.ops[idx] {
+            FlatOp::FinalHlt => {
+                stop = Stop::Halt;
+                break;
+            }
+            FlatOp::Print(p) => {
+                events.push(Ev::PrintHdr(line_of(idx)));
+                events.push(ref_print(p, &mach.regs, mach.mem.dense.as_ref().unwrap()));
+                idx += 1;
+            }
+            FlatOp::ImpliedRet | FlatOp::Ins(_) => {
+                let insn = match &flat.ops[idx] {
+                    FlatOp::Ins(i) => i.clone(),
+                    _ => Insn::new("ret", vec![]),
+                };
+                let env = Env { data_labels: &flat.data_labels, current: idx, string_straddle_both: false };
+                let mut acc = mach.exec(&insn, &env, q);
+                let e = acc.remove(0);
+                mach.regs = e.regs;
+                mach.mem = e.mem;
+                mach.call_stack = e.call_stack;
+                match e.outcome {
+                    Outcome::Next => idx += 1,
+                    Outcome::Halt => {
+                        stop = Stop::Halt;
+                        break;
+                    }
+                    Outcome::JmpLabel(n) => idx = *flat.labels.get(&n).unwrap_or(&(flat.ops.len() - 1)),
+                    Outcome::JmpProc(n) => idx = *flat.procs.get(&n).unwrap_or(&(flat.ops.len() - 1)),
+                    Outcome::JmpIdx(i) => idx = i,
+                    Outcome::Print => idx += 1,
+                    Outcome::Error => {
+                        events.push(Ev::InternalError);
+                        stop = Stop::RetWithoutCall;
+                        break;
+                    }
+                    Outcome::Int(0) => {
+                        events.push(Ev::DivErr(line_of(idx)));
+                        events.push(Ev::Exiting);
+                        stop = Stop::DivideError;
+                        break;
+                    }
+                    Outcome::Int(3) => {
+                        events.push(Ev::Int3(line_of(idx)));
+                        if let Some(s) = prompt(&mut events, &mach, &mut script_pos) {
+                            stop = s;
+                            break;
+                        }
+                        idx += 1;
+                    }
+                    Outcome::Int(0x10) => {
+                        let ah = (mach.regs.r[AX] >> 8) as u8;
+                        match ah {
+                            0x0A => {
+                                let al = mach.regs.r[AX] as u8;
+                                let n = mach.regs.r[CX] as usize;
+                                events.push(Ev::Chars(vec![al; n]));
+                            }
+                            0x13 => {
+                                let dl = mach.regs.r[DX] as u8;
+                                let mut v = vec![b' '; dl as usize];
+                                let base = phys(mach.regs.r[ES], mach.regs.r[BP]);
+                                for k in 0..mach.regs.r[CX] as u32 {
+                                    v.push(mach.mem.rd(base.wrapping_add(k)));
+                                }
+                                events.push(Ev::Chars(v));
+                            }
+                            _ => {
+                                events.push(Ev::UnsupInt(line_of(idx)));
+                                events.push(Ev::Exiting);
+                                stop = Stop::UnsupportedInt;
+                                break;
+                            }
+                        }
+                        idx += 1;
+                    }
+                    Outcome::Int(0x21) => {
+                        let ah = (mach.regs.r[AX] >> 8) as u8;
+                        match ah {
+                            0x02 => {
+                                let dl = mach.regs.r[DX] as u8;
+                                events.push(Ev::Chars(vec![dl]));
+                                mach.regs.r[AX] = (mach.regs.r[AX] & 0xFF00) | dl as u16;
+                            }
+                            0x01 => {
+                                let line: Vec<u8> = cfg.input_lines.and_then(|l| l.get(input_pos).cloned()).unwrap_or_default();
+                                input_pos += 1;
+                                let b = line.first().copied().unwrap_or(0);
+                                mach.regs.r[AX] = (mach.regs.r[AX] & 0xFF00) | b as u16;
+                            }
+                            0x0A => {
+                                // modelled by the C18 check's own validity predicate; here: consume a line
+                                input_pos += 1;
+                            }
+                            _ => {
+                                events.push(Ev::UnsupInt(line_of(idx)));
+                                events.push(Ev::Exiting);
+                                stop = Stop::UnsupportedInt;
+                                break;
+                            }
+                        }
+                        idx += 1;
+                    }
+                    Outcome::Int(_) => {
+                        events.push(Ev::InternalError);
+                        stop = Stop::UnsupportedInt;
+                        break;
+                    }
+                }
+            }
+        }
+        if idx >= flat.ops.len() {
+            stop = Stop::Halt;
+            break;
+        }
+    }
+    let mem = mach.mem.dense.take().unwrap();
+    RefRun { events, trace, stop, regs: mach.regs, mem, prompts_before, stdin_used: script_pos }
+}
+
+/// merge adjacent Chars events (the tokenizer of real output cannot see the boundaries)
+pub fn normalise(evs: &[Ev]) -> Vec<Ev> {
+    let mut out: Vec<Ev> = Vec::new();
+    for e in evs {
+        match (out.last_mut(), e) {
+            (Some(Ev::Chars(a)), Ev::Chars(b)) => a.extend_from_slice(b),
+            (_, Ev::Chars(b)) if b.is_empty() => {}
+            _ => out.push(e.clone()),
+        }
+    }
+    out
+}
+
+/// characters that generated programs may write through the console services: none of them
+/// occurs in any message of the CLI, so program output can be told apart from chatter
+pub const MARKERS: &[u8] = b"!#$%&*+=?@^~|";
+
+/// tokenise the CLI's stdout into events.  Unknown text is returned as Err(line).
+pub fn tokenize(out: &[u8]) -> Result<Vec<Ev>, String> {
+    let s = String::from_utf8_lossy(out).to_string();
+    let b = s.as_bytes();
+    let mut evs: Vec<Ev> = Vec::new();
+    let mut i = 0usize;
+    let rest_line = |i: usize| -> (&str, usize) {
+        let e = s[i..].find('\n').map(|x| i + x).unwrap_or(s.len());
+        (&s[i..e], (e + 1).min(s.len()))
+    };
+    let parse_num = |t: &str| -> usize { t.trim().split(|c: char| !c.is_ascii_digit()).next().unwrap_or("").parse::<usize>().unwrap_or(0) };
+    while i < b.len() {
+        let r = &s[i..];
+        if MARKERS.contains(&b[i]) || b[i] == b' ' && false {
+            let mut v = Vec::new();
+            while i < b.len() && MARKERS.contains(&b[i]) {
+                v.push(b[i]);
+                i += 1;
+            }
+            evs.push(Ev::Chars(v));
+        } else if r.starts_with(">>> ") {
+            evs.push(Ev::Prompt);
+            i += 4;
+        } else if r.starts_with("About to execute line ") {
+            let (l, n) = rest_line(i);
+            evs.push(Ev::About(parse_num(&l["About to execute line ".len()..])));
+            i = n;
+        } else if r.starts_with("Trap flag is set") {
+            evs.push(Ev::TrapNote);
+            i = rest_line(i).1;
+        } else if r.starts_with("Int 3 at line ") {
+            let (l, n) = rest_line(i);
+            evs.push(Ev::Int3(parse_num(&l["Int 3 at line ".len()..])));
+            i = n;
+        } else if r.starts_with("Output of line ") {
+            let (l, n) = rest_line(i);
+            evs.push(Ev::PrintHdr(parse_num(&l["Output of line ".len()..])));
+            i = n;
+        } else if r.starts_with("AX : ") {
+            // six lines (one blank in the middle)
+            let mut lines: Vec<&str> = Vec::new();
+            let mut j = i;
+            while lines.len() < 6 && j < b.len() {
+                let (l, n) = rest_line(j);
+                j = n;
+                if l.trim().is_empty() {
+                    continue;
+                }
+                lines.push(l);
+            }
+            match crate::cli::parse_reg_dump(&lines) {
+                Some(a) => evs.push(Ev::Regs(a)),
+                None => return Err(format!("malformed register dump: {:?}", lines)),
+            }
+            i = j;
+        } else if r.starts_with("OF : ") {
+            let (l, n) = rest_line(i);
+            match crate::cli::parse_flag_dump(l) {
+                Some(f) => evs.push(Ev::Flags(f)),
+                None => return Err(format!("malformed flag dump: {:?}", l)),
+            }
+            i = n;
+        } else if r.starts_with("Exiting") {
+            evs.push(Ev::Exiting);
+            i = rest_line(i).1;
+        } else if r.starts_with("Attempt to divide by 0 : int 0 at ") {
+            let (l, n) = rest_line(i);
+            evs.push(Ev::DivErr(parse_num(&l["Attempt to divide by 0 : int 0 at ".len()..])));
+            i = n;
+        } else if r.starts_with("Error at line ") {
+            let (l, n) = rest_line(i);
+            evs.push(Ev::UnsupInt(parse_num(&l["Error at line ".len()..])));
+            i = n;
+        } else if r.starts_with("Invalid input") {
+            evs.push(Ev::Invalid);
+            i = rest_line(i).1;
+        } else if r.starts_with("Starting address is") || r.starts_with("Error : End address") || r.starts_with("Error : Starting address") || r.starts_with("Error : address") {
+            evs.push(Ev::PrintRefused);
+            i = rest_line(i).1;
+        } else if r.starts_with("Internal Error") {
+            evs.push(Ev::InternalError);
+            // the message has a second line "Error : ..."
+            i = rest_line(i).1;
+            while i < b.len() && !s[i..].starts_with(">>> ") {
+                let (l, n) = rest_line(i);
+                if l.trim().is_empty() {
+                    i = n;
+                    break;
+                }
+                i = n;
+            }
+        } else if b[i] == b'\n' || b[i] == b'\r' {
+            i += 1;
+        } else if b[i].is_ascii_hexdigit() && i + 2 < b.len() && b[i + 1].is_ascii_hexdigit() && b[i + 2] == b'\t' {
+            // memory dump rows until a line that is not a row
+            let mut rows: Vec<&str> = Vec::new();
+            let mut j = i;
+            while j < b.len() {
+                let (l, n) = rest_line(j);
+                let t = l.trim();
+                let is_row = !t.is_empty() && t.split_whitespace().all(|c| c.len() == 2 && c.chars().all(|x| x.is_ascii_hexdigit()));
+                if !is_row {
+                    break;
+                }
+                rows.push(l);
+                j = n;
+            }
+            match crate::cli::parse_mem_dump(&rows) {
+                Some((bytes, lens)) => {
+                    // 16 per row, last row shorter
+                    for (k, l) in lens.iter().enumerate() {
+                        if (k + 1 < lens.len() && *l != 16) || *l > 16 {
+                            return Err(format!("memory dump row {} has {} cells", k, l));
+                        }
+                    }
+                    evs.push(Ev::Mem(bytes));
+                }
+                None => return Err(format!("malformed memory dump: {:?}", rows)),
+            }
+            i = j;
+        } else {
+            let (l, _) = rest_line(i);
+            return Err(format!("unrecognised output: {:?}", l));
+        }
+    }
+    Ok(normalise(&evs))
+}
+
 pub fn c10_random_programs(_ctx: &Ctx) {}
